@@ -740,6 +740,8 @@ class Ctx:
         shutil.rmtree(self.base, ignore_errors=True)
         self.pd = os.path.join(self.base, "parse")
         os.makedirs(self.pd)
+        self.vd = os.path.join(self.base, "check")
+        os.mkdir(self.vd)
         self.cwd = os.getcwd()
         os.chdir(self.pd)  # `source "Kconfig.x"` is resolved against the working directory
         for fn, t in files.items():
@@ -820,8 +822,8 @@ class Ctx:
 
         self.nv += 1
         self.real_calls += 1
-        d = os.path.join(self.base, f"v{self.nv}")
-        os.mkdir(d)
+        # the target's own directory (one per program x target x work item); it holds nothing but the target file
+        d = self.vd
         path = os.path.join(d, self.target)
         _put(path, text)
         # the first Kconfig() of a process installs kconfiglib's own logger (report.py: CachingLog); take it back
@@ -847,10 +849,12 @@ class Ctx:
         finally:
             _cap.msgs.clear()
             try:
-                os.unlink(path)
-                os.rmdir(d)
+                extra = [x for x in os.listdir(d) if x != self.target]
             except OSError:
+                extra = ["?"]
+            if extra:  # leftovers of this pass must not be seen by the next one
                 shutil.rmtree(d, ignore_errors=True)
+                os.mkdir(d)
 
     def validate(self, text: str) -> tuple:
         v = self.vmemo.get(text)
